@@ -31,7 +31,7 @@ import (
 // ---------------------------------------------------------------------------------------------
 
 var recSvcServer = ev.New("C04", "service-server",
-	"rapid, real time, real service (generated JSON -> service.Config -> Manager -> Run) on loopback: ss2022 server (aes-128/256 x EIH x window {omitted,64,1000}) with 2-3 udpListeners "+
+	"rapid, real time, real service (generated JSON -> service.Config -> Manager -> Run) on loopback: ss2022 server (aes-128/256 x EIH x window {omitted,300,1000}; a fresh id is never more than ~120 behind the newest one, so the order in which the listeners process a segment does not matter) with 2-3 udpListeners "+
 		"(different ports / different addresses / both; batchMode no|sendmmsg per listener; serverRecvBatchSize {omitted,2,4}), 1-3 client sessions written by the independent codec, "+
 		"2-7 segments of 1-10 datagrams sent back to back (one sendmmsg call or a write loop; own socket per session or one shared socket; replays optionally from another address): "+
 		"fresh (next id / skipping ahead / filling a gap), byte-identical replay (3 of 4 to another listener than the original), re-encrypted packet with a delivered id, invalid "+
@@ -106,7 +106,7 @@ func drawSSPlan(rt *rapid.T) ssPlan {
 		Cfg: pcfg{
 			KeyLen: rapid.SampledFrom([]int{16, 32}).Draw(rt, "keylen"),
 			EIH:    rapid.Bool().Draw(rt, "eih"),
-			Size:   rapid.SampledFrom([]uint64{0, 64, 1000}).Draw(rt, "window"),
+			Size:   rapid.SampledFrom([]uint64{0, 300, 1000}).Draw(rt, "window"), // a fresh id is never more than ~120 behind the newest one sent: the order in which the listeners process a segment is irrelevant
 			Seed:   rapid.Uint64().Draw(rt, "seed"),
 		}.norm(),
 		Layout:    rapid.SampledFrom([]string{"ports", "addrs", "mixed"}).Draw(rt, "layout"),
@@ -232,7 +232,8 @@ type ssExec struct {
 	labels  map[string]bool
 	tagCtr  uint64
 	harness string
-	restart bool
+	// relaySrc: source addresses from which genuine payloads arrived (the relay's NAT sockets)
+	relaySrc map[netip.AddrPort]bool
 }
 
 type ssResult struct {
@@ -242,7 +243,7 @@ type ssResult struct {
 }
 
 func runSSPlan(p ssPlan) (res ssResult) {
-	x := &ssExec{plan: p, keys: makeKeys(p.Cfg, 0), wrong: makeKeys(p.Cfg, 0xdeadbeefcafef00d), exp: map[string]*ssPkt{}, labels: map[string]bool{}}
+	x := &ssExec{plan: p, keys: makeKeys(p.Cfg, 0), wrong: makeKeys(p.Cfg, 0xdeadbeefcafef00d), exp: map[string]*ssPkt{}, labels: map[string]bool{}, relaySrc: map[netip.AddrPort]bool{}}
 	defer x.cleanup()
 	if err := x.setup(); err != nil {
 		return ssResult{harness: err.Error()}
@@ -712,7 +713,20 @@ func (x *ssExec) judge() *svcViolation {
 			p := x.exp[string(d.data)]
 			switch {
 			case p == nil:
-				return safetyf("SIG=C04/svc-unknown-datagram target %d received %d bytes that no genuine packet carried: % x", t, len(d.data), d.data[:min(len(d.data), 24)])
+				// the machine is shared: a datagram that another process sent to a port it used to own is not the
+				// relay's doing. It counts when it comes from a socket that also delivered genuine payloads, or from
+				// a socket of this process (the relay runs in the test binary).
+				if !x.relaySrc[d.from] {
+					if own, known := udpPortOwner(d.from.Port()); !own {
+						if known {
+							x.labels["stray-datagram-of-another-process-ignored"] = true
+						} else {
+							x.labels["unattributable-datagram-ignored"] = true
+						}
+						continue
+					}
+				}
+				return safetyf("SIG=C04/svc-unknown-datagram target %d received %d bytes from the relay (%s) that no genuine packet carried: % x", t, len(d.data), d.from, d.data[:min(len(d.data), 24)])
 			case !p.must:
 				s := x.sess[p.sess]
 				return safetyf("SIG=C04/svc-rejected-delivered target %d received the payload of a packet that must be dropped: %s (session %#x id %d, sent to listener %d %s [%s])%s",
@@ -722,6 +736,7 @@ func (x *ssExec) judge() *svcViolation {
 			}
 			p.count++
 			p.done = true
+			x.relaySrc[d.from] = true
 			if p.count > 1 {
 				s := x.sess[p.sess]
 				return safetyf("SIG=C04/svc-delivered-twice the payload of session %#x id %d (%s, first sent to listener %d %s [%s]) was delivered %d times to target %d; listeners: %s",
